@@ -76,6 +76,58 @@ def _wrun(chunk):
     return len(chunk), out
 
 
+def long_prefix_part(v, univ, keep, gens, quick):
+    """unpack(pre + raw + post, len(pre)) for prefixes that put every byte boundary of the parsed region on a multiple of 4096
+    (where a buffered reader changes blocks), with the input given as bytes AND as the documented file adapter
+    (bisturi.util.SeekableFile over the same bytes): same values, same end offset relative to the start."""
+    import io
+    from bind import declgen, observe
+    from bisturi.util import SeekableFile
+    n = 0
+    with declgen.Scratch() as sc:
+        for d_idx, cs in sorted(keep.items()):
+            d = univ[d_idx - 1]
+            if '"rest"' in json.dumps(d["prog"]) or '"EOS"' in json.dumps(d["prog"]):
+                continue        # callables / delimiters that ask for len(raw): the file adapter has no length (documented adapter, not C14's subject)
+            for gen in gens:
+                cls = getattr(sc.load(d["prog"], gen), d["root"])
+                for c in cs:
+                    raw = bytes(c["raw"])
+                    want = (c["u1"]["st"], c["u1"]["result"], c["u1"]["cur"])
+                    for e in range(1, c["u1"]["cur"] + 1):
+                        for blocks in ((1,) if quick else (1, 2)):
+                            pre = 4096 * blocks - e
+                            data = bytes([238]) * pre + raw + b"\xee\xee"
+                            for kind in ("bytes", "file"):
+                                src = data if kind == "bytes" else SeekableFile(io.BytesIO(data))
+                                endc = [None]
+                                base = cls.unpack_impl
+
+                                def impl(self, raw_, offset, _b=base, **k):
+                                    r = _b(self, raw_, offset, **k)
+                                    if k.get("root") is self:
+                                        endc[0] = r
+                                    return r
+                                cls.unpack_impl = impl
+                                try:
+                                    try:
+                                        p = cls.unpack(src, pre)
+                                        got = ("done", observe.abs_packet(p), endc[0] - pre)
+                                    except observe.PacketError as ex:
+                                        got = ("fail", str(ex)[:120], None)
+                                    except Exception as ex:
+                                        got = ("escape", type(ex).__name__, None)
+                                finally:
+                                    cls.unpack_impl = base
+                                n += 1
+                                if got != want and len(v.violations) < 50:
+                                    v.violation("C14_LongPrefix" if kind == "bytes" else "C14_FileBacked",
+                                                "unpack(raw) gives %r; with %d bytes in front (%s input) it gives %r" % (want, pre, kind, got),
+                                                {"declaration": d["prog"], "raw": c["raw"], "prefix": pre, "input": kind, "gen": gen})
+    v.cov["long_prefix_runs"] = n
+    v.cov["traces_validated_against_impl"] += n
+
+
 def run(tier, seed):
     import multiprocessing
     v = common.Verdict("C14", tier, seed)
@@ -85,6 +137,7 @@ def run(tier, seed):
     nparts = 8 if quick else 48
     gens = [rp.GEN_OFF, None]
     univ = None
+    keep_cases = {}
     ctx = multiprocessing.get_context("fork")
     total = 0
     for w0 in range(0, nparts, 8):
@@ -108,6 +161,12 @@ def run(tier, seed):
         v.add_tlc(res, "MC_Context U=%s (processes Part=%d..%d of %d)" % (universe, ks[0], ks[-1], nparts))
         cases = sorted(res.emits, key=lambda c: c["d"])
         total += len(cases)
+        # (a thin sample of the successful parses of every declaration is kept for the long-prefix / file-backed part)
+        for c in cases:
+            if c["u1"]["st"] == "done" and not c["u1"]["open"] and len(c["pre"]) == 0 and len(c["post"]) == 0:
+                k = keep_cases.setdefault(c["d"], [])
+                if len(k) < (3 if quick else 12) and (len(c["raw"]) + len(k)) % 2 == 0:
+                    k.append(c)
         chunks = [cases[i:i + 200] for i in range(0, len(cases), 200)]
         mism = []
         n = 0
@@ -132,6 +191,7 @@ def run(tier, seed):
             break
     if total == 0:
         raise common.MachineryFailure("MC_Context emitted nothing")
+    long_prefix_part(v, univ, keep_cases, gens, quick)
     # random declarations and contexts
     from bind import randdecl, declgen, trace_packet as tp
     rnd = random.Random(seed)
